@@ -92,6 +92,11 @@ def poolStep {σ : Type} (p : Pool σ) (d : σ) (toks : List String) : Option (P
     match i.toNat? with
     | some k => if k < p.insts.size then some ({ p with cur := k }, "ok") else some (p, bad)
     | none => some (p, bad)
+  | ["clonefrom", i] =>
+    -- `current.clone_from(&pool[i])`: the current instance is overwritten with a copy of instance `i`
+    match i.toNat? with
+    | some k => if k < p.insts.size then some (p.set (p.insts.getD k d), "ok") else some (p, bad)
+    | none => some (p, bad)
   | _ => none
 
 def blockMachine {σ : Type} (M : BlockMode σ) (iv : Bytes) (ivLen keyLen : Nat) : Machine (Pool σ) where
